@@ -96,15 +96,17 @@ impl Number {
     #[inline]
     pub fn decode(bytes: &[u8]) -> Result<Number, Error> {
         let mut len = bytes.len();
-        assert!(len > 0);
+        if len == 0 {
+            return Err(Error::InvalidJsonbNumber);
+        }
         len -= 1;
 
         let ty = bytes[0];
         let num = match ty {
-            NUMBER_ZERO => Number::UInt64(0),
-            NUMBER_NAN => Number::Float64(f64::NAN),
-            NUMBER_INF => Number::Float64(f64::INFINITY),
-            NUMBER_NEG_INF => Number::Float64(f64::NEG_INFINITY),
+            NUMBER_ZERO if len == 0 => Number::UInt64(0),
+            NUMBER_NAN if len == 0 => Number::Float64(f64::NAN),
+            NUMBER_INF if len == 0 => Number::Float64(f64::INFINITY),
+            NUMBER_NEG_INF if len == 0 => Number::Float64(f64::NEG_INFINITY),
             NUMBER_INT => match len {
                 1 => Number::Int64(i8::from_be_bytes(bytes[1..].try_into().unwrap()) as i64),
                 2 => Number::Int64(i16::from_be_bytes(bytes[1..].try_into().unwrap()) as i64),
@@ -123,7 +125,9 @@ impl Number {
                     return Err(Error::InvalidJsonbNumber);
                 }
             },
-            NUMBER_FLOAT => Number::Float64(f64::from_be_bytes(bytes[1..].try_into().unwrap())),
+            NUMBER_FLOAT if len == 8 => {
+                Number::Float64(f64::from_be_bytes(bytes[1..].try_into().unwrap()))
+            }
             _ => {
                 return Err(Error::InvalidJsonbNumber);
             }
